@@ -1,4 +1,5 @@
 import EinxModel.Proofs.XlateStb
+import EinxModel.Proofs.XlateDiag
 import EinxModel.Extracted.Stb
 /-!
 C17 / C01 (tie model ↔ source by regeneration) — the hand-written model of `_squeeze_transpose_broadcast`
@@ -99,5 +100,113 @@ example :
 
 /-- Non-vacuity of `extracted_idsOf_eq`: repeated names are numbered. -/
 example : Stb.toAxisIds [⟨"a", 2⟩, ⟨"b", 3⟩, ⟨"a", 2⟩, ⟨"a", 5⟩] = [("a", 0), ("b", 0), ("a", 1), ("a", 2)] := by decide
+
+/-! ### `classical_from_numpy.diagonal` (the wrapper around `np.diagonal`; area of the defect D1) -/
+
+/-- The numpy adapter registers `diagonal` as `classical_from_numpy.diagonal(np.diagonal, self.transpose, ...)`:
+keyword names `axis1`/`axis2`, `axis_always_last=False` (read from `ops.__init__`). -/
+theorem extracted_numpy_diagonal_registration : Stb.numpyDiagonalRegistration = true := by decide
+
+/-- `canon_axis` (translated from source) on a non-negative axis: the axis itself if it is below the rank,
+`ValueError` otherwise (the `axis < 0` branch is not taken). -/
+theorem extracted_canonAxis_nonneg (a : Nat) (x : St) :
+    Stb.canonAxis (Int.ofNat a) x = if a < x.shape.length then .ok (Int.ofNat a) else .error "ValueError" := by
+  unfold Stb.canonAxis
+  have h0 : ¬ (Int.ofNat a < Int.ofNat 0) := by simp
+  simp only [h0, decide_false, Bool.false_eq_true, if_false, Bool.false_or]
+  by_cases h : a < x.shape.length
+  · have : ¬ (Int.ofNat a ≥ Int.ofNat x.shape.length) := by
+      intro h2; have := Int.ofNat_le.mp h2; omega
+    simp only [this, decide_false, Bool.false_eq_true, if_false, h, if_true]
+    rfl
+  · have : (Int.ofNat a ≥ Int.ofNat x.shape.length) := Int.ofNat_le.mpr (by omega)
+    simp only [this, decide_true, if_true, h, if_false]
+    rfl
+
+/-- `[canon_axis(a) for a in axes_in]` on non-negative axes. -/
+theorem extracted_canonAxis_mapM (x : St) : ∀ l : List Nat,
+    (l.map Int.ofNat).mapM (fun a => Stb.canonAxis a x)
+      = if l.all (fun a => a < x.shape.length) then .ok (l.map Int.ofNat) else .error "ValueError"
+  | [] => rfl
+  | a :: l => by
+    rw [List.map_cons, List.mapM_cons, extracted_canonAxis_nonneg, extracted_canonAxis_mapM x l]
+    by_cases h : a < x.shape.length <;> by_cases h2 : l.all (fun a => a < x.shape.length) = true <;>
+      simp [h, h2] <;> rfl
+
+/-- The body of the translated `while len(axes_in) > 1` loop, on a list of non-negative axes with more than one
+element, is one iteration of the model (`diagIter`): the two highest axes, the keyword dict, `np.diagonal`, the
+new last axis. -/
+theorem extracted_diag_body (s : St) (l : List Nat) (h : l.length > 1) :
+    (do
+      let t_2 ← getNat (slice (l.map Int.ofNat) (some (-2 : Int)) none) 0
+      let t_3 ← getNat (slice (l.map Int.ofNat) (some (-2 : Int)) none) 1
+      let x ← St.npDiagonalKw s (dictSet (dictSet [] "axis1" t_2) "axis2" t_3)
+      (pure (x, slice (l.map Int.ofNat) none (some (-2 : Int)) ++ [Int.ofNat x.shape.length - Int.ofNat 1]) : Except String (St × List Int)))
+      = (diagIter s l).map (fun p => (p.1, p.2.map Int.ofNat)) := by
+  obtain ⟨a, b, hab⟩ := drop_last_two l h
+  unfold diagIter
+  rw [slice_suffix2, slice_prefix2, List.length_map, ← List.map_drop, ← List.map_take, hab]
+  simp only [List.map_cons, List.map_nil, getNat, List.getElem?_cons_zero, List.getElem?_cons_succ, bind, Except.bind, npDiagonalKw_two]
+  cases hd : s.npDiagonal a b with
+  | error e => rfl
+  | ok s' =>
+    have := npDiagonal_rank_pos hd
+    simp only [Except.map, pure, Except.pure, ofNat_sub_one _ this, List.map_append, List.map_cons, List.map_nil]
+
+/-- **The inner function of `classical_from_numpy.diagonal`, translated from source, is the model `diagW`**
+for all tracing states and all non-negative `axes_in`, `axis_out` (what `Decomposer.__call__` passes), with
+identical errors: `ValueError` for an out-of-range axis or a rejected `np.diagonal`, `IndexError` for an empty
+`axes_in`.  The bounded `while` never runs out of its fuel `len(axes_in)` on the model's side either
+(`diagLoop` is called with the same fuel).  Together with `diag_perm_moves` this pins the D1 fix: the final
+permutation is the one that moves the diagonal axis. -/
+theorem extracted_diag_eq (s : St) (axesIn : List Nat) (axisOut : Nat) :
+    Stb.diagonalInner s (axesIn.map Int.ofNat) (Int.ofNat axisOut) = diagW s axesIn axisOut := by
+  unfold Stb.diagonalInner diagW
+  simp only [extracted_canonAxis_mapM, extracted_canonAxis_nonneg]
+  by_cases h1 : axesIn.all (fun a => a < s.shape.length) = true
+  · by_cases h2 : axisOut < s.shape.length
+    · simp only [h1, h2, if_true, Bool.not_true, Bool.false_or, decide_true, Bool.false_eq_true, if_false, ok_bind,
+        sortedInt_map_ofNat, List.length_map]
+      rw [whileFuel_diag _ _ (fun _ _ => rfl) (fun s l h => by dsimp only; exact extracted_diag_body s l h)]
+      cases hl : diagLoop (sortedNat axesIn).length s (sortedNat axesIn) with
+      | error e => rfl
+      | ok p =>
+        obtain ⟨s', axes⟩ := p
+        cases axes with
+        | nil => rfl
+        | cons a rest =>
+          simp only [Except.map, List.map_cons, getNat, List.getElem?_cons_zero, filter_ne_ofNat, listInsert_ofNat,
+            mapM_natOfInt_ofNat, movePerm, bind, Except.bind]
+          rfl
+    · simp [h1, h2, bind, Except.bind]
+  · simp [h1, bind, Except.bind]
+
+/-- **The diagonal axis is moved, not swapped** (the defect D1 was a swap): the final permutation of the model
+(equal to the translation's by `extracted_diag_eq`) has `axisIn` at position `axisOut`, and all other axes keep
+their order. -/
+theorem diag_perm_moves (n axisIn axisOut : Nat) (hout : axisOut ≤ ((List.range n).filter (fun i => i != axisIn)).length) :
+    (movePerm n axisIn axisOut)[axisOut]? = some axisIn
+      ∧ (movePerm n axisIn axisOut).eraseIdx axisOut = (List.range n).filter (fun i => i != axisIn) :=
+  movePerm_spec n axisIn axisOut hout
+
+/-- Observable part of a traced result: shape and the emitted instructions as number lists
+(`1 :: x :: perm` = transpose, `3 :: x :: [a1, a2]` = diagonal). -/
+def obsDiag (r : Except String St) : String ⊕ (List Nat × List (List Nat)) :=
+  match r with
+  | .ok s => .inr (s.shape, s.prog.map (fun i => match i with
+      | .transpose x p => 1 :: x :: p
+      | .diagonal x a b => [3, x, a, b]
+      | _ => [9]))
+  | .error e => .inl e
+
+/-- Non-vacuity: the call of D1, `a e a d -> a d e` on shape (2, 3, 2, 4) (in-axes 0 and 2, out-axis 0): one
+`np.diagonal(axis1=0, axis2=2)` to shape (3, 4, 2), then the permutation `[2, 0, 1]` that *moves* the diagonal
+axis to the front (the swap of D1 would be `[2, 1, 0]`); three in-axes take two diagonals; a negative axis is
+canonicalised; an out-of-range axis raises `ValueError`. -/
+example :
+    obsDiag (Stb.diagonalInner ⟨0, [2, 3, 2, 4], [], 1⟩ [0, 2] 0) = .inr ([2, 3, 4], [[3, 0, 0, 2], [1, 1, 2, 0, 1]])
+      ∧ obsDiag (Stb.diagonalInner ⟨0, [2, 2, 5, 2], [], 1⟩ [3, 0, 1] 1) = .inr ([5, 2], [[3, 0, 1, 3], [3, 1, 0, 2]])
+      ∧ obsDiag (Stb.diagonalInner ⟨0, [2, 3, 2, 4], [], 1⟩ [0, -2] 0) = .inr ([2, 3, 4], [[3, 0, 0, 2], [1, 1, 2, 0, 1]])
+      ∧ obsDiag (Stb.diagonalInner ⟨0, [2, 3, 2, 4], [], 1⟩ [0, 4] 0) = .inl "ValueError" := by decide
 
 end Einx.Generic
